@@ -28,7 +28,7 @@ ALN = 'xdoctest.utils.util_str.add_line_numbers'
 
 
 def run(ctx):
-    for fn in (r1_numbering, r2_lines_once, r2b_want_text_unmodified, r3_formatting_is_read_only, r4_file_relative_start):
+    for fn in (r1_numbering, r2_lines_once, r2b_want_text_unmodified, r3_formatting_is_read_only, r4_file_relative_start, r5_explicit_options_win, r6_continuation_prompt_pairing):
         ctx.rep.rule(fn, ctx)
 
 
@@ -369,6 +369,54 @@ def r3_formatting_is_read_only(ctx):
     rep.note('read_only_sites_checked', n_checked)
 
 
+def r5_explicit_options_win(ctx):
+    """the numbering mode (file-relative or doctest-relative), colouring ... requested by the CALLER of a formatting function wins over the
+    configured default; the merge is by `is None` (DoctestConfig.getvalue), never by truthiness -- `opt or config[...]` turns an explicit False
+    back into the configured True"""
+    from .common import falsy_override_sites
+    rep = ctx.rep
+    n = 0
+    for q in ('xdoctest.doctest_example.DocTest.format_parts', 'xdoctest.doctest_example.DocTest.format_src', 'xdoctest.doctest_example.DocTest.repr_failure',
+              'xdoctest.doctest_example.DocTest.run', 'xdoctest.doctest_example.DocTest._color'):
+        f = ctx.func(q)
+        gets = [c for c in ast.walk(f.node) if isinstance(c, ast.Call) and isinstance(c.func, ast.Attribute) and c.func.attr == 'getvalue' and len(c.args) == 2]
+        n += len(gets)
+        for (x, p_, e) in falsy_override_sites(f):
+            rep.ob('C18.R5', ctx.loc(f, x), ctx.src(x, 80), False,
+                   'the optional argument `%s` is merged with the configuration by truthiness: an explicit %s=False of the caller is replaced by the configured value '
+                   '(e.g. file-relative line numbers are shown although doctest-relative ones were requested)' % (p_, p_), anchor=q)
+        for c in gets:
+            rep.ob('C18.R5', ctx.loc(f, c), ctx.src(c, 70), True, 'merged by `is None` (getvalue)', nontrivial=False, anchor=q)
+    rep.floor('C18.R5', 'option merges through getvalue in the formatting / run functions', n, 3)
+
+
+def r6_continuation_prompt_pairing(ctx):
+    """_complete_source yields (line as stored, line as the labeller sees it).  Where it inserts a continuation prompt into the stored line (body
+    lines of a triple-quoted string written without prompt) the labeller's view must get the same prompt in the same block: otherwise the line is
+    displayed as `... text` but labelled as a new statement, and the formatted doctest no longer re-parses to the same parts"""
+    rep = ctx.rep
+    f = ctx.func('xdoctest.parser._complete_source')
+    ys = [y for y in ast.walk(f.node) if isinstance(y, ast.Yield) and isinstance(y.value, ast.Tuple) and len(y.value.elts) == 2 and all(isinstance(e, ast.Name) for e in y.value.elts)]
+    need(ys, 'C18.R6: _complete_source does not yield (stored line, normalised line) pairs')
+    stored, seen = {y.value.elts[0].id for y in ys}, {y.value.elts[1].id for y in ys}
+    n = 0
+    for blk in ast.walk(f.node):
+        for body in (getattr(blk, 'body', None), getattr(blk, 'orelse', None)):
+            if not isinstance(body, list):
+                continue
+            ins = [st for st in body if isinstance(st, ast.Assign) and len(st.targets) == 1 and isinstance(st.targets[0], ast.Name) and st.targets[0].id in stored
+                   and any(isinstance(c, ast.Constant) and isinstance(c.value, str) and c.value.strip() == '...' for c in ast.walk(st.value))]
+            for st in ins:
+                n += 1
+                twin = [t for t in body if isinstance(t, ast.Assign) and len(t.targets) == 1 and isinstance(t.targets[0], ast.Name) and t.targets[0].id in seen
+                        and any(isinstance(c, ast.Constant) and isinstance(c.value, str) and c.value.strip() == '...' for c in ast.walk(t.value))]
+                rep.ob('C18.R6', ctx.loc(f, st), ctx.src(st, 80), bool(twin),
+                       'the labeller\'s view of the line gets the same continuation prompt (%s)' % ctx.src(twin[0], 50) if twin else
+                       'a continuation prompt is inserted into the stored line but not into the line the labeller tests: the line is shown as `... text` yet labelled as the start of a '
+                       'new statement, so the displayed doctest groups (and evaluates) differently when it is parsed again', anchor=f.qualname)
+    rep.floor('C18.R6', 'continuation prompts inserted by _complete_source', n, 1)
+
+
 # ---------------------------------------------------------------------------
 from ..selftest import fire, silent      # noqa: E402
 
@@ -376,6 +424,8 @@ DE = 'xdoctest/doctest_example.py'
 DP = 'xdoctest/doctest_part.py'
 US = 'xdoctest/utils/util_str.py'
 VARIANTS = [
+    fire('explicit-numbering-mode-overridden-by-config', 'C18.R5', (DE, "        offset_linenos = self.config.getvalue('offset_linenos', offset_linenos)\n", "        offset_linenos = offset_linenos or self.config['offset_linenos']\n")),
+    fire('continuation-prompt-not-seen-by-the-labeller', 'C18.R6', ('xdoctest/parser.py', "                        norm_line = '... ' + norm_line\n", "")),
     fire('want-text-stripped', 'C18.R2b', (DP, "        want_text = self.want if self.want else ''\n", "        want_text = (self.want or '').strip()\n")),
     fire('want-lines-appended-into-exec-lines', 'C18.R3', (DP, "        part_lines = src_text.splitlines()\n", "        part_lines = src_text.splitlines() if prefix else self.exec_lines\n"), (DP, "        part_text = '\\n'.join(part_lines)\n", "        part_lines += want_lines\n        part_text = '\\n'.join(part_lines)\n")),
     silent('want-text-or-form', (DP, "        want_text = self.want if self.want else ''\n", "        want_text = self.want or ''\n")),
